@@ -116,12 +116,13 @@ def show(r):
 
 def w_run(run, st_, k, n):
     for sp in collect(asmgen.spec(), n, run.seed * 1000 + k):
-        st_.ev()
         state, res = judge(sp)
         if state == "excluded":
+            st_.ev()
             st_.exclude("base_line_rejected")
             continue
         for r in res:
+            st_.ev()            # one evaluation = one (base line, equivalent spelling) comparison of candidate sets
             if r[0] is None:
                 st_.klass("same:" + r[1])
                 st_.nt((r[1], r[2]))
